@@ -740,7 +740,7 @@ def i_spatial_average(Z, s, v):
         out = Z.out(".npy")
         r = spatial_average(W.a("cond_v_v", s), W.nbr[s], Nmax=30, outputfile=out)
         return r, npy_holds(out, r)
-    return spatial_average([W.a("cond_s", s), None, W.a("cond_t_r", s)][v], W.nbr[s], Nmax=[30, 0, 4][v]), None
+    return spatial_average([W.a("cond_s", s), None, W.a("cond_t_r", s), W.a("cond_i", s)][v], W.nbr[s], Nmax=[30, 0, 4, 30][v]), None
 
 
 def i_gaussian_blurring(Z, s, v):
